@@ -150,6 +150,19 @@ CHECKS = {
         technique="TLA+ protocol state machine, TLC-generated behaviours replayed into the real assemblers",
         engine="assembler",
     ),
+    "C13": dict(
+        category="model_checking",
+        text="The type systems TLC enumerates for C08/C09 (restricted to the generator's feature set) are the 'programs': "
+             "schema/gen/go of the working tree generates a package for them afresh, it is compiled with a runner (compile "
+             "failure = violation), and the generated prototypes / builders / nodes / representation views are compared on "
+             "every C08 inhabitant and C09 mutant with the verdicts and views Schema.tla prescribes -- the same reference "
+             "bindnode is compared to, so observational equivalence of the two engines is decided three-way.",
+        design_ref="DESIGN.md section 4, C13",
+        note="16-20 generated types per run; enum / any / listpairs are outside the generator; three known findings in "
+             "generated code; trusted: TLC, go build, harness.",
+        technique="TLC-enumerated type systems fed to the code generator; generated code replayed against the TLA+ schema semantics (three-way with bindnode)",
+        engine="tlc+vh",
+    ),
     "C14": dict(
         category="model_checking",
         text="Traversal!Resolve specifies path resolution (map by key, list by index, links loaded on the way, failure when a "
